@@ -109,6 +109,7 @@ type GenesisConfig struct {
 	PoolCreationFee   int64
 	EdenRewards       bool // tokenomics time-based inflation present
 	MinGasPrice       bool
+	AmmFeeSplit       []string `json:"amm_fee_split,omitempty"` // {WeightBreakingFeePortion, WeightRecoveryFeePortion, WeightBreakingFeeMultiplier, ThresholdWeightDifference}; empty = module defaults
 	Airdrops          bool `json:"airdrops,omitempty"` // tokenomics airdrop records in genesis: governance-owned (as in config.yml) and beneficiary-owned (the only kind MsgClaimAirdrop can pay)
 }
 
@@ -329,6 +330,12 @@ func BuildGenesis(app *elysapp.ElysApp, w *World) (elysapp.GenesisState, error) 
 	ag.Params.AllowedPoolCreators = []string{gov}
 	for _, u := range w.Users[:min(4, len(w.Users))] {
 		ag.Params.AllowedPoolCreators = append(ag.Params.AllowedPoolCreators, u.Addr.String())
+	}
+	if len(cfg.AmmFeeSplit) == 4 {
+		ag.Params.WeightBreakingFeePortion = math.LegacyMustNewDecFromStr(cfg.AmmFeeSplit[0])
+		ag.Params.WeightRecoveryFeePortion = math.LegacyMustNewDecFromStr(cfg.AmmFeeSplit[1])
+		ag.Params.WeightBreakingFeeMultiplier = math.LegacyMustNewDecFromStr(cfg.AmmFeeSplit[2])
+		ag.Params.ThresholdWeightDifference = math.LegacyMustNewDecFromStr(cfg.AmmFeeSplit[3])
 	}
 	gs[ammtypes.ModuleName] = cdc.MustMarshalJSON(ag)
 
